@@ -13,6 +13,7 @@ SPEC = dict(
     theorems=[
         "SymVerif.C27.ivContains_sound",
     ],
+    run_timeout=240,
     rule="",
     not_covered=[],
     assumptions=[],
